@@ -16,7 +16,8 @@
     [None]; nothing is assumed about them.  A float read from the document is
     stored with its source text; a float the crate makes up (defaults) has the
     text [[]].  The one float computation of the extractors, the default pixel
-    size of a spherical image, (2.0 * PI) / width as f64, is computed with Flocq.
+    size of a spherical image, (2.0 * PI) / width as f64, is a third section
+    variable [fdiv], instantiated with Flocq's division in [extract_all_impl].
 
     No proofs here. *)
 From Coq Require Import Strings.String.
@@ -154,6 +155,10 @@ Definition opt_node {A} (o : option xnode) (f : xnode -> res A) : res (option A)
 Section Extract.
 Variable parse_f64 : xstr -> option N.
 Variable parse_f32 : xstr -> option N.
+(** [fdiv c v]: the bits of [f64::from_bits(c) / (v as f64)] for [v : u32]; the only float
+    arithmetic of the extractors (default pixel size of spherical images).  The theorems hold for
+    any function; the tie instantiates it with Flocq's division ([f64_div_u32_bits] below). *)
+Variable fdiv : N -> Z -> N.
 
 Definition f64_parsed (t : xstr) : option f64t :=
   match parse_f64 t with Some b => Some (mkF64 b t) | None => None end.
@@ -327,12 +332,21 @@ Definition data_type_from_node (n : xnode) : res data_type :=
     Ok (DScaledInteger mn mx (dflt sc (f64_const f64_one_bits)) (dflt off (f64_const 0)))
   else Err ENotImpl.
 
-(** one iteration of the prototype loop of [PointCloud::from_node] (element children only) *)
+(** pointcloud.rs: [const E57_NAMESPACE] *)
+Definition E57_NAMESPACE : xstr := B"http://www.astm.org/COMMIT/E57/2010-e57-v1.0".
+Definition is_empty (s : xstr) : bool := match s with [] => true | _ => false end.
+
+(** one iteration of the prototype loop of [PointCloud::from_node] (element children only):
+    only elements without namespace or in the E57 namespace can be standard attributes *)
 Definition record_from_node (n : xnode) : res record :=
   match n with
   | XElem nm _ _ _ =>
-      let prefix := lookup_prefix (match xn_ns nm with Some u => u | None => [] end) n in
-      let name := record_name_of prefix (xn_local nm) in
+      let uri := match xn_ns nm with Some u => u | None => [] end in
+      let prefix := lookup_prefix uri n in
+      let name :=
+        if is_empty uri || xstr_eqb uri E57_NAMESPACE
+        then record_name_of prefix (xn_local nm)
+        else Unknown (match prefix with Some p => p | None => [] end) (xn_local nm) in
       do dt <- data_type_from_node n;
       Ok (mkRecord name dt)
   | _ => Err EInternal (* not reached: callers filter with [is_element] *)
@@ -450,8 +464,7 @@ Definition pinhole_from_node (n : xnode) : res pinhole :=
 Definition TWO_PI_bits : N := 0x401921FB54442D18.
 Definition PI_bits : N := 0x400921FB54442D18.
 (** [c / (v as f64)] for v : u32 *)
-Definition f64_div_u32 (c : N) (v : Z) : f64t :=
-  f64_const (bits_of_f64 (f64_div (f64_of_bits c) (f64_of_Z v))).
+Definition f64_div_u32 (c : N) (v : Z) : f64t := f64_const (fdiv c v).
 
 Definition spherical_from_node (n : xnode) : res spherical_image :=
   do w <- req_int parse_u32 n (B"imageWidth");
@@ -535,3 +548,11 @@ Definition extract_all (d : xdoc) : res file_meta :=
   Ok (mkFileMeta r exts pcs imgs).
 
 End Extract.
+
+(** IEEE-754 division, round to nearest even, of the constant by the exactly converted integer *)
+Definition f64_div_u32_bits (c : N) (v : Z) : N :=
+  bits_of_f64 (f64_div (f64_of_bits c) (f64_of_Z v)).
+
+(** [extract_all] as the crate computes it, given the two float parsers *)
+Definition extract_all_impl (parse_f64 parse_f32 : xstr -> option N) : xdoc -> res file_meta :=
+  extract_all parse_f64 parse_f32 f64_div_u32_bits.
